@@ -1,4 +1,4 @@
-import BreezyVerif.Lemmas.C46Fixed
+import BreezyVerif.Lemmas.C46World
 /-!
 C46 — clean-tree deletes only what was asked for.
 
@@ -7,8 +7,17 @@ Theorems about the model of `Model/C46.lean` (`extras` of bzr and git trees,
 `clean_tree`), for every layout (no bound on size or depth), every option
 combination and both tree formats.  Hypotheses: `f.wf` (sibling names distinct
 and proper, only directories have content) and, for `never_versioned`,
-`f.unvClosed` (nothing versioned below an unversioned entry) — both hold for
-every layout a file system + inventory/index can produce; examples below.
+`f.unvClosed` (nothing versioned below an unversioned entry), equivalently
+`invShaped f` (the parent of a versioned entry is versioned — what an inventory
+guarantees) — both hold for every layout a file system + inventory/index can
+produce and are evaluated on every real layout by the check; examples below.
+
+The last section refines the abstract removal (`Forest.remove`) to the file
+system (`Model/C46World.lean`): `os.unlink` / `shutil.rmtree` chosen per kind,
+kernel path resolution through symbolic links into an area outside the tree,
+the dry-run test inside `delete_items`; `clean_world_refines` shows that the
+refinement does exactly what the abstract model says and `outside_unchanged`
+that nothing outside the tree is touched.
 -/
 namespace BreezyVerif.C46
 open Forest
@@ -219,6 +228,156 @@ theorem bzr_tree_git_controldir_witness :
       selectedWith (keepFixed f) .bzr unknownOnly f = [] := by
   decide
 
+/-! ### the repaired filter and the exact effect together -/
+
+/-- with the repaired filter no component of a selected path is a control name -/
+theorem fixed_no_ctl_component {s : Item} (hs : s ∈ selectedWith (keepFixed f) fmt o f) :
+    ∀ c ∈ s.path, isCtlName c = false := by
+  have hk := (selected_sub hs).2.2
+  simp only [keepFixed, Bool.and_eq_true, Bool.not_eq_true', List.any_eq_false] at hk
+  intro c hc
+  simpa using hk.1.1 c hc
+
+/-- **every control directory survives with everything in it**: a path one of
+whose components is a control name (`.bzr`, `.git`) survives every run of
+`clean_tree` with the repaired filter, whatever the options -/
+theorem control_paths_survive (hw : f.wf = true) {q : Path} (hm : q ∈ f.paths) {c : String}
+    (hcq : c ∈ q) (hc : isCtlName c = true) :
+    q ∈ (cleanTreeWith (keepFixed f) fmt o f).1.paths := by
+  obtain ⟨d, r, rfl⟩ := List.append_of_mem hcq
+  have hm' : d ++ [c] ∈ f.paths := by
+    have : d ++ c :: r = (d ++ [c]) ++ r := by simp
+    rw [this] at hm
+    exact paths_prefix_closed hm (by simp)
+  apply survives hw hm
+  intro s hs hpre
+  have hdc : d ++ [c] <+: d ++ c :: r := ⟨r, by simp⟩
+  rcases List.prefix_or_prefix_of_prefix hpre hdc with h | h
+  · exact (fixed_filter_protects hw hs hc hm').1 h
+  · have : c ∈ s.path := h.subset (by simp)
+    have := fixed_no_ctl_component hs c this
+    rw [hc] at this
+    exact absurd this (by simp)
+
+/-- **every nested tree survives with all its working files**: a path at or
+below a directory (below the tree root) that holds a control name survives
+every run of `clean_tree` with the repaired filter, whatever the options -/
+theorem nested_tree_survives (hw : f.wf = true) {d : Path} {c : String} (hd : d ≠ [])
+    (hc : isCtlName c = true) (hm : d ++ [c] ∈ f.paths) {q : Path} (hq : d <+: q)
+    (hqm : q ∈ f.paths) : q ∈ (cleanTreeWith (keepFixed f) fmt o f).1.paths := by
+  apply survives hw hqm
+  intro s hs hpre
+  obtain ⟨h1, h2⟩ := fixed_filter_protects hw hs hc hm
+  rcases List.prefix_or_prefix_of_prefix hpre hq with h | h
+  · exact h1 (h.trans (List.prefix_append d [c]))
+  · exact h2 hd h
+
+/-! ### the inventory shape instead of `unvClosed` -/
+
+/-- `unvClosed` is exactly "the parent of a versioned entry is versioned" -/
+theorem invShaped_iff_unvClosed : invShaped f = true ↔ f.unvClosed = true :=
+  ⟨unvClosed_of_invShaped, invShaped_of_unvClosed⟩
+
+/-- never a versioned path, never a directory containing a versioned path —
+from the invariant an inventory has (the parent of a versioned entry is
+versioned; evaluated on every real layout by the check) -/
+theorem never_versioned_inv (hw : f.wf = true) (hi : invShaped f = true)
+    (h : it ∈ selectedWith keep fmt o f) {q : Path} {i : Info} {k : Forest} (hq : it.path <+: q)
+    (hg : f.get q = some (i, k)) : i.versioned = false :=
+  never_versioned hw (unvClosed_of_invShaped hi) h hq hg
+
+/-! ### the file system: primitives, links, the outside, dry run inside `delete_items` -/
+
+/-- every component but the last of a selected path is a real directory of the
+layout — never a symbolic link — so the kernel resolves the path handed to
+`os.unlink` / `shutil.rmtree` without leaving the tree -/
+theorem selected_dirs_above (hw : f.wf = true) (h : it ∈ selectedWith keep fmt o f) :
+    dirsAbove f it.path = true ∧
+      ∀ r s, r ≠ [] → s ≠ [] → r ++ s = it.path → ∃ i k, f.get r = some (i, k) ∧ i.kind = .dir := by
+  have hd := extras_dirsAbove hw (selected_sub h).1
+  refine ⟨hd, ?_⟩
+  intro r s hr hs e
+  rw [← e] at hd
+  exact dirsAbove_get hd hr hs
+
+/-- `osutils.isdir` (lstat) always picks a primitive that accepts the entry:
+`rmtree` for real directories only, `unlink` for files and for links of either sort -/
+theorem lstat_prim_accepts (k : Kind) :
+    (primFor false k).accepts k = true ∧ (primFor false k = .rmtree ↔ k = .dir) := by
+  cases k <;> decide
+
+/-- **refinement**: on every world whose tree layout is well formed,
+`clean_tree` with per-kind primitives, kernel path resolution through links and
+the dry-run test inside `delete_items` does to the tree exactly what the
+abstract model says, with the same error flag, and changes nothing else -/
+theorem clean_world_refines (w : World) (hw : w.tree.wf = true) :
+    cleanTreeW keep fmt o w =
+      ({ w with tree := (cleanTreeWith keep fmt o w.tree).1 }, (cleanTreeWith keep fmt o w.tree).2) := by
+  unfold cleanTreeW cleanTreeWith
+  by_cases he : (selectedWith keep fmt o w.tree).isEmpty = true
+  · simp [he]
+  · by_cases hp : o.prompt = some false
+    · simp [he, hp]
+    · by_cases hd : o.dryRun = true
+      · simp [he, hp, hd, deleteItemsW_dry]
+      · have hd' : o.dryRun = false := by simpa using hd
+        simp only [he, hp, hd', Bool.false_eq_true, if_false]
+        apply deleteItemsW_refines
+        · intro p hp'
+          obtain ⟨s, hs, rfl⟩ := List.mem_map.mp hp'
+          exact extras_dirsAbove hw (selected_sub hs).1
+        · rw [List.pairwise_map]
+          exact (selected_antichain hw).imp (fun h => h.1)
+
+/-- **nothing outside the tree is touched**, whatever the layout, the links in
+it, the options and the filter -/
+theorem outside_unchanged (w : World) (hw : w.tree.wf = true) :
+    (cleanTreeW keep fmt o w).1.outside = w.outside ∧ (cleanTreeW keep fmt o w).1.targets = w.targets := by
+  rw [clean_world_refines w hw]
+  exact ⟨rfl, rfl⟩
+
+/-- **a dry run deletes nothing**, with the test where the code has it (inside
+`delete_items`, per item): whatever list `delete_items` is given — existing
+paths or not — and whichever `isdir` it uses -/
+theorem dry_run_deletes_nothing (follow : Bool) (w : World) (ps : List Path) :
+    deleteItemsW follow true w ps = (w, false) :=
+  deleteItemsW_dry follow w ps
+
+/-- a dry run of `clean_tree` leaves the whole world as it is -/
+theorem dry_run_noop_world (w : World) (h : o.dryRun = true) : cleanTreeW keep fmt o w = (w, false) := by
+  unfold cleanTreeW
+  by_cases he : (selectedWith keep fmt o w.tree).isEmpty = true
+  · simp [he]
+  · by_cases hp : o.prompt = some false
+    · simp [he, hp]
+    · simp [he, hp, h, deleteItemsW_dry]
+
+private def lk (n : String) : Info :=
+  { name := n, kind := .linkDir, versioned := false, ignored := false, valid := false }
+
+/-- the outside area *is* reachable in the model: a path through a link to an
+outside directory (what an `extras()` that entered such links would yield)
+deletes the outside file and leaves the tree as it is -/
+theorem follow_links_witness :
+    let w : World := { tree := cons (lk "lnk") nil nil,
+                       outside := cons (dr "od") (cons (fl "inner") nil nil) (cons (fl "canary") nil nil),
+                       targets := [(["lnk"], ["od"])] }
+    dirsAbove w.tree ["lnk", "inner"] = false ∧
+      deleteItemsW false false w [["lnk", "inner"]] =
+        ({ w with outside := cons (dr "od") nil (cons (fl "canary") nil nil) }, false) := by
+  decide
+
+/-- `os.path.isdir` instead of `osutils.isdir` would call `rmtree` on a link to
+a directory, which raises; the code as it is unlinks the link and leaves its
+target alone -/
+theorem stat_isdir_witness :
+    let w : World := { tree := cons (lk "lnk") nil (cons (fl "a") nil nil),
+                       outside := cons (dr "od") (cons (fl "inner") nil nil) nil,
+                       targets := [(["lnk"], ["od"])] }
+    deleteItemsW true false w [["lnk"]] = (w, true) ∧
+      deleteItemsW false false w [["lnk"]] = ({ w with tree := cons (fl "a") nil nil }, false) := by
+  decide
+
 /-! ### non-vacuity -/
 
 /-- a layout satisfying `wf` and `unvClosed` on which every branch of the
@@ -256,5 +415,31 @@ example : unknownOnly.dryRun = false ∧ unknownOnly.prompt ≠ some false ∧
     (cleanTree .bzr unknownOnly sample).1.paths =
       [[".bzr"], ["src"], ["src", "main.c"], ["src", "main.o"], ["nest"],
        ["nest", ".bzr"], ["nest", "inner"]] := by decide
+
+/-- hypotheses of `control_paths_survive` / `nested_tree_survives` are satisfiable, and the
+conclusion is not empty: `nest/.bzr`, `nest/inner` survive a run that deletes `build` -/
+example :
+    sample.wf = true ∧ ["nest", ".bzr"] ∈ sample.paths ∧ isCtlName ".bzr" = true ∧
+      (["nest"] : Path) <+: ["nest", "inner"] ∧ ["nest", "inner"] ∈ sample.paths ∧
+      ((cleanTreeWith (keepFixed sample) .bzr unknownOnly sample).1.paths).contains ["build"] = false := by
+  decide
+
+/-- the inventory shape holds for the sample (and fails when a versioned file sits in an
+unversioned directory) -/
+example : invShaped sample = true ∧
+    invShaped (cons (dr "u") (cons (fl "v" true) nil nil) nil) = false := by decide
+
+/-- a world satisfying the hypothesis of `clean_world_refines` / `outside_unchanged` in which
+something is deleted next to a link to the outside and to a versioned directory that has been
+replaced by a link to the outside -/
+example :
+    let w : World := { tree := cons (dr ".bzr" false true) nil <| cons (lk "lnk") nil <|
+                         cons { lk "vdir" with versioned := true } nil <| cons (fl "junk") nil nil,
+                       outside := cons (dr "od") (cons (fl "inner") nil nil) nil,
+                       targets := [(["lnk"], ["od"]), (["vdir"], ["od"])] }
+    w.tree.wf = true ∧
+      (cleanTreeW (keepFixed w.tree) .bzr unknownOnly w).1.tree.paths = [[".bzr"], ["vdir"]] ∧
+      (cleanTreeW (keepFixed w.tree) .bzr unknownOnly w).1.outside = w.outside := by
+  decide
 
 end BreezyVerif.C46
